@@ -186,10 +186,38 @@ def build_string(fn, var, before=None):
             iv = d.children[-1].strip(casts=True)
             if iv.kind == "StringLiteral":
                 pieces = [Piece("lit", iv.strval(), node=iv)] if iv.strval() else []
-    for c in fn.calls(("strcpy", "strcat", "snprintf", "sprintf", "strncpy", "strncat")):
-        if not c.args or c.args[0].path() != var:
-            continue
+    tu = fn.tu
+    prims = ("strcpy", "strcat", "snprintf", "sprintf", "strncpy", "strncat")
+    for c in fn.calls():
         if before is not None and c.begin >= before.begin:
+            continue
+        if c.callee not in prims:
+            # a library helper that builds (part of) the buffer passed to it: inline its straight-line building
+            if c.callee in tu.functions and any(a.path() == var for a in c.args):
+                callee = tu.functions[c.callee]
+                ps = [p for p in callee.children if p.kind == "ParmVarDecl"]
+                idx = [i for i, a in enumerate(c.args) if a.path() == var][0]
+                if idx >= len(ps) or ps[idx].type.replace("const ", "").strip() != "char *" or "const" in ps[idx].type:
+                    continue
+                if c.parent is not body:
+                    raise AnalysisError("%s: path buffer %s is passed to %s() under control flow at line %s" % (
+                        fn.name, var, c.callee, c.line))
+                sub, sub_seen = build_string(callee, ps[idx].name)
+                if not sub_seen:
+                    continue
+                seen_any = True
+                binding = {ps[i].name: c.args[i] for i in range(min(len(ps), len(c.args)))}
+                first_is_copy = any(x.callee in ("strcpy", "strncpy", "snprintf", "sprintf") and x.args and x.args[0].path() == ps[idx].name
+                                    for x in callee.calls(prims))
+                mapped = []
+                for pc in sub:
+                    if pc.kind == "var" and pc.val in binding:
+                        mapped.append(_piece(binding[pc.val]))
+                    else:
+                        mapped.append(pc)
+                pieces = mapped if first_is_copy else pieces + mapped
+            continue
+        if not c.args or c.args[0].path() != var:
             continue
         # must be a direct child statement of the top-level block
         if c.parent is not body:
@@ -559,3 +587,51 @@ def node_of(g, ast_node):
             if best is None or (n.ast.end - n.ast.begin) < (best.ast.end - best.ast.begin):
                 best = n
     return best
+
+
+# ---------------------------------------------------------------------------
+# primitive calls seen through small library helpers
+# ---------------------------------------------------------------------------
+
+def prim_sites(fn, prims, depth=2):
+    """Calls to the primitives `prims` made by fn directly or through library helpers that forward their parameters.
+    Returns a list of (primitive name, args, site, helper) in caller source order (helper-internal order preserved):
+    args are caller-side CNodes where the helper passes a parameter straight through (possibly behind casts or `*p`/`&x`
+    is NOT looked through), else the helper's own node; site is the call node in fn; helper is the helper FunctionDecl or None."""
+    tu = fn.tu
+    out = []
+    for c in sorted(fn.calls(), key=lambda x: x.begin):
+        if c.callee in prims:
+            out.append((c.callee, list(c.args), c, None))
+        elif c.callee in tu.functions and depth > 0 and c.callee != fn.name:
+            callee = tu.functions[c.callee]
+            inner = prim_sites(callee, prims, depth - 1)
+            if not inner:
+                continue
+            ps = [p.name for p in callee.children if p.kind == "ParmVarDecl"]
+            bind = {ps[i]: c.args[i] for i in range(min(len(ps), len(c.args)))}
+            for name, args, site, helper in inner:
+                mapped = []
+                for a in args:
+                    s = a.strip(casts=True)
+                    if s.kind == "DeclRefExpr" and s.refkind == "ParmVarDecl" and s.ref in bind:
+                        mapped.append(bind[s.ref])
+                    else:
+                        mapped.append(a)
+                out.append((name, mapped, c, callee))
+    return out
+
+
+def alias_path(fn, node):
+    """path of `node`, seen through a local that is a plain copy of an access path (const hid_t p = obj->field) and is
+    never stored again"""
+    s = node.strip(casts=True)
+    p = s.path()
+    if p is None or "->" in p or "[" in p or s.kind != "DeclRefExpr":
+        return p
+    ds = [d for d in fn.find("VarDecl") if d.name == p and d.children]
+    if len(ds) == 1 and not any(path == p for path, n_, rhs, kind in stores(fn)):
+        q = ds[0].children[-1].strip(casts=True).path()
+        if q and "->" in q:
+            return q
+    return p
